@@ -59,9 +59,10 @@ Emit == /\ Gen /\ pc = "done"
         /\ pc' = "emitted"
         /\ UNCHANGED <<R0, R, it, att, eff, hist>>
 
-Next == \/ \E t \in Quads : Attempt(t)
-        \/ \E fp \in Bij(CellsOf(R, 1), CellsOf(R0, 1)) :
-             \E fn \in Bij(CellsOf(R, -1), CellsOf(R0, -1)) : Deal(fp, fn)
+Next == \/ (pc = "pick" /\ \E t \in Quads : Attempt(t))
+        \* the guard comes first: TLC would otherwise enumerate the bijections in every state
+        \/ (pc = "deal" /\ \E fp \in Bij(CellsOf(R, 1), CellsOf(R0, 1)) :
+                             \E fn \in Bij(CellsOf(R, -1), CellsOf(R0, -1)) : Deal(fp, fn))
         \/ Emit
 Spec == Init /\ [][Next]_vars
 
